@@ -96,7 +96,7 @@ CHECKS.update({
 CHECKS.update({
     "C17": dict(
         technique="property-based testing: generated structures with same-field-count sibling classes alive, instance pairs (equal / differing in one field / other class), constructor splits and single-field assignments, against the reference zero values and reference encodings; exhaustive field counts 0..12",
-        text="generated search over definitions x instance pairs x constructor argument splits x assignments: == must hold exactly for same class and equal fields, hash must agree on equal instances, bool must be any-field-truthy, T(*pos, **kw) must equal default+setattr with reference zero values elsewhere, and dumps before/after an assignment must equal the reference encodings of the old/new tree (locality); every field count 0..12 enumerated in three name orders; structure values reached through unions are checked for truth / == / hash against the value computed from the reference",
+        text="generated search over definitions x instance pairs x constructor argument splits x assignments: == must hold exactly for same class and equal fields, hash must agree on equal instances, bool must be any-field-truthy, T(*pos, **kw) must equal default+setattr with reference zero values elsewhere, and dumps before/after an assignment must equal the reference encodings of the old/new tree (locality); every field count 0..12 enumerated in three name orders; structure values reached through unions are checked for truth / == / hash against the value computed from the reference, and for != against the same declaration loaded under a second name",
         design_ref="DESIGN.md §4 C17",
     ),
 })
